@@ -14,6 +14,9 @@ import UbxModel.Driver.Common
 open Ubx
 open DriverCommon
 
+/-- the key table of every line that does not say otherwise: the one generated from the source -/
+instance : KeyTable := publishedTable
+
 def parseCid (s : String) : Cid :=
   match s.splitOn ":" with
   | [a, b] => ⟨a.toNat!, b.toNat!⟩
@@ -36,21 +39,39 @@ def feedOp (op : String) : List Char :=
     `E` empty_queue, `F<cids>` set_filters, `S<cid>` set_filter (filter None is the start state).
     `stable=true`: payloads are values here; that the code's payload objects behave like values is what
     `Model/HeapParser` + `Proofs/HeapRefines` are about, and what the harness re-reads on the real side. -/
+def ubxStep (acc : Parser × List String) (op : String) : Parser × List String :=
+  let (p, out) := acc
+  match feedOp op with
+  | 'P' :: h => (p.process (parseHex (String.mk h)), out)
+  | ['K'] => let (r, p') := p.packet; (p', out ++ [match r with | some x => showPacket x | none => "none"])
+  | ['D'] => ({ p with queue := [] }, out ++ p.queue.map showPacket ++ ["."])
+  | ['R'] => (p.restart, out)
+  | 'T' :: _ => (p, out)                  -- time passing between two calls: no part of the parser's state
+  | ['E'] => (p.emptyQueue, out)
+  | 'F' :: c => (p.setFilters (parseCids (String.mk c)), out)
+  | 'S' :: c => (p.setFilter (parseCid (String.mk c)), out)
+  | _ => (p, out ++ ["bad-op"])
+
 def runUbx (ops : String) : String :=
-  let step (acc : Parser × List String) (op : String) : Parser × List String :=
-    let (p, out) := acc
-    match feedOp op with
-    | 'P' :: h => (p.process (parseHex (String.mk h)), out)
-    | ['K'] => let (r, p') := p.packet; (p', out ++ [match r with | some x => showPacket x | none => "none"])
-    | ['D'] => ({ p with queue := [] }, out ++ p.queue.map showPacket ++ ["."])
-    | ['R'] => (p.restart, out)
-    | 'T' :: _ => (p, out)                  -- time passing between two calls: no part of the parser's state
-    | ['E'] => (p.emptyQueue, out)
-    | 'F' :: c => (p.setFilters (parseCids (String.mk c)), out)
-    | 'S' :: c => (p.setFilter (parseCid (String.mk c)), out)
-    | _ => (p, out ++ ["bad-op"])
-  let (p, out) := (ops.splitOn ";").foldl step ({}, [])
+  let (p, out) := (ops.splitOn ";").foldl ubxStep ({}, [])
   String.intercalate " " (out ++ [s!"rx={p.framesRx}", "stable=true"])
+
+/-- the stream of a bulk line: `n` frames 01/07 whose two payload bytes count up; mode 1: every checksum wrong, mode 2: every
+    third one -/
+def bulkStream (n mode : Nat) : List Nat :=
+  (List.range n).flatMap fun k =>
+    let f : Frame := { cls := 1, id := 7, data := [k % 256, k / 256 % 256] }
+    let b := f.toBytes.2
+    if mode = 1 || (mode = 2 && k % 3 = 0) then b.take (b.length - 1) ++ [(b.getLast! + 1) % 256] else b
+
+/-- `ubxbulk|<n>|<mode>|<ops>`: a long history on one parser - filter 01/07, `n` frames fed without draining, then the
+    operations; the tokens are summarised (count, digest, the last few) -/
+def runUbxBulk (n mode : Nat) (ops : String) : String :=
+  let p0 : Parser := (({} : Parser).setFilters [⟨1, 7⟩]).process (bulkStream n mode)
+  let (p, out) := (ops.splitOn ";").foldl ubxStep (p0, [])
+  let toks := out ++ [s!"rx={p.framesRx}"]
+  let joined := " ".intercalate toks
+  s!"count={toks.length} h={digest (joined.toUTF8.toList.map UInt8.toNat)} tail={" ".intercalate (toks.drop (toks.length - 4))}"
 
 def runNmea (ops : String) : String :=
   let step (p : Nmea.P) (op : String) : Nmea.P :=
@@ -123,6 +144,23 @@ def runCh (n : Nat) (data : List Nat) : String :=
       match (Kind.text n).pack v with
       | .error e => s!"{k} {showVal v} pack=EXC:{showExc e}"
       | .ok bs => s!"{k} {showVal v} pack={toHex bs}"
+
+/-- `subitem|<parent>|<fmt>|<value>`: an item type derived from a library type with another `fmt` (what `Item.fmt` is there
+    for): pack the value, unpack the bytes - by the derived type's format, whatever its parent is -/
+def runSubItem (fmt : String) (v : Int) : String :=
+  let k : Option Kind := match fmt with
+    | "B" => some (.uint 1) | "H" => some (.uint 2) | "I" => some (.uint 4) | "Q" => some (.uint 8)
+    | "b" => some (.sint 1) | "h" => some (.sint 2) | "i" => some (.sint 4) | "q" => some (.sint 8)
+    | _ => none
+  match k with
+  | none => "bad-line"
+  | some k =>
+    match k.pack (.int v) with
+    | .error e => "pack=EXC:" ++ showExc e
+    | .ok bs =>
+      match k.unpack bs with
+      | .error e => s!"pack={toHex bs} back=EXC:{showExc e}"
+      | .ok (w, n) => s!"pack={toHex bs} back={showVal w} n={n}"
 
 def parseVal (s : String) : Val :=
   if s.startsWith "s:" then .str (parseHex (String.ofList (s.toList.drop 2))) else .int (parseInt s)
@@ -430,6 +468,35 @@ def runFromKey (k v : String) : String :=
   | .ok c => (match c.pack with | .ok bs => showItem c ++ " " ++ toHex bs | .error e => showItem c ++ " EXC:" ++ showExc e)
   | .error e => "EXC:" ++ showExc e
 
+/-- `keytab|<op>;…`: the key table changes while items are decoded and built - `T<key>:<1|0|->` registers a key as signed /
+    unsigned or removes it, `U<hex>` decodes an item, `F<key>:<value>` builds one from a key and packs it, `G<hex>` decodes a
+    whole VALGET payload.  Every operation sees the table as it is at that moment. -/
+def runKeyTab (ops : String) : String :=
+  let step (acc : List (Nat × String × Bool) × List String) (op : String) : List (Nat × String × Bool) × List String :=
+    let (tbl, out) := acc
+    match op.toList with
+    | 'T' :: r =>
+        (match (String.mk r).splitOn ":" with
+         | [k, "-"] => (tbl.filter (fun e => e.1 != k.toNat!), out)
+         | [k, v] => ((k.toNat!, "user", v == "1") :: tbl.filter (fun e => e.1 != k.toNat!), out)
+         | _ => (tbl, out ++ ["bad-op"]))
+    | 'U' :: h =>
+        (tbl, out ++ [match @CfgItem.unpack ⟨tbl⟩ (parseHex (String.mk h)) with
+          | .ok (c, n) => s!"{showItem c},n={n}"
+          | .error e => "EXC:" ++ showExc e])
+    | 'F' :: r =>
+        (match (String.mk r).splitOn ":" with
+         | [k, v] => (tbl, out ++ [match @CfgItem.fromKey ⟨tbl⟩ k.toNat! (parseInt v) with
+            | .ok c => (match c.pack with | .ok bs => showItem c ++ "," ++ toHex bs | .error e => showItem c ++ ",EXC:" ++ showExc e)
+            | .error e => "EXC:" ++ showExc e])
+         | _ => (tbl, out ++ ["bad-op"]))
+    | 'G' :: h =>
+        (tbl, out ++ [match @valgetDecode ⟨tbl⟩ (parseHex (String.mk h)) with
+          | .ok (_, _, _, items) => "/".intercalate (items.map showItem)
+          | .error e => "EXC:" ++ showExc e])
+    | _ => (tbl, out ++ ["bad-op"])
+  " ".intercalate ((ops.splitOn ";").foldl step (Gen.publishedKeys, [])).2
+
 /-- `gnss|<op>|<system>|<blocks: id:flags,…>` -/
 def runGnss (op sys blocks : String) : String :=
   let bl : List GnssBlock := if blocks.isEmpty then [] else (blocks.splitOn ",").map fun e =>
@@ -645,6 +712,7 @@ def runCid (arg : String) : String :=
 def handle (line : String) : String :=
   match line.trim.splitOn "|" with
   | ["ubx", ops] => runUbx ops
+  | ["ubxbulk", n, m, ops] => runUbxBulk n.toNat! m.toNat! ops
   | "ubxil" :: _ :: seqs => " ## ".intercalate (seqs.map runUbx)      -- values do not share state: each object as if alone
   | "nmeail" :: _ :: seqs => " ## ".intercalate (seqs.map runNmea)
   | ["cid", a] => runCid a
@@ -654,6 +722,8 @@ def handle (line : String) : String :=
   | "seq" :: rest => runSeq rest
   | ["fields", c, pl] => runFields c pl
   | ["ch", n, d] => runCh n.toNat! (parseHex d)
+  | ["keytab", ops] => runKeyTab ops
+  | ["subitem", _, f, v] => runSubItem f (parseInt v)
   | ["assign", c, pl, f, v] => runAssign c pl f v
   | ["assign", c, pl, f, v, _] => runAssign c pl f v
   | "keypack" :: rest => runKeyPack rest
